@@ -103,6 +103,30 @@ def _stmts(case):
     return nodes
 
 
+def pred_return_closes_throwing_iterator(case, record, expected):
+    """C09-N7: a return() in the history, a for-of over a hand-written iterator whose return() throws (rtn == "T")
+    located inside a finally block, and the exception escaped the driver's try/catch (script/STEP error)"""
+    if case.get("kind") != "gen" or "return" not in [o.get("k") for o in case.get("ops") or []]:
+        return False
+    obs = record.get("obs") or ""
+    if not (obs.startswith("script error: 2") or obs.startswith("STEP error: 2")):    # the thrown value is arg+2000
+        return False
+    for path, n in _stmts(case):
+        if n.get("k") in ("tryfinally", "trycf"):
+            fin = n.get("b") if n["k"] == "tryfinally" else n.get("c")
+            blk = []
+            _walk(fin, [], blk)
+            for _, m in blk:
+                if m.get("k") == "forof" and isinstance(m.get("s"), dict) and (m["s"].get("h") or {}).get("rtn") == "T":
+                    return True
+    return False
+
+
+def pred_await_bad_constructor(case, record, expected):
+    """C09-N8: an async case that awaits a promise whose constructor getter throws"""
+    return case.get("kind") == "async" and '"k": "awaitbad"' in json.dumps([case.get("body"), case.get("body2")])
+
+
 CFG = {
     "id": "C09",
     "harness": "c09",
@@ -110,7 +134,7 @@ CFG = {
     "run_modules": ["Verif.C09.Run"],
     "coq_dirs": ["C09"],
     "n": {"quick": 2000, "thorough": 150000},
-    "shard": 125,
+    "shard": 250,
     "level": "proof",
     "candidates": candidates,
     "rule": ("(generator body, driver history) pairs: bodies from a grammar with yield in operand / call-argument / spread / "
@@ -122,7 +146,8 @@ CFG = {
              "functions (await in place of yield) against settled promises. non-trivial = the generator was resumed at "
              "least once after a suspension (async: more than two log entries); distinct = by hash of the case"),
     "theorem_names": ["genobj_refines_spec", "completed_is_absorbing", "executing_rejects_reentry",
-                      "suspend_resume_roundtrip", "resume_suspend_is_identity", "next_history_is_direct_evaluation"],
+                      "start_abrupt_skips_body", "async_is_generator_plus_promises", "suspend_resume_roundtrip",
+                      "resume_suspend_is_identity", "machine_matches_direct", "resume_deterministic", "locals_survive"],
     "allowed_axioms": [],
     "trusted_base": [
         "Coq 8.16.1 kernel + vm_compute (no native_compute); theorems closed under the global context (no axioms)",
@@ -138,14 +163,19 @@ CFG = {
         "body activations and delegation chains terminate (fuel); out-of-fuel is an explicit outcome on both sides",
         "async functions: correspondence only (await resumption order = round-robin over settled promises)",
     ],
-    "predicates": {},
+    "predicates": {
+        "C09.return_closes_throwing_iterator_inside_finally": pred_return_closes_throwing_iterator,
+        "C09.await_promise_with_throwing_constructor": pred_await_bad_constructor,
+    },
     "manifest": {
         "text": ("proof: goja's generatorObject state machine (states, delegated iterator, next/throw/return, yield* forwarding "
                  "with missing throw/return) is proved to answer every driver history exactly as ECMA-262 27.5.3 + 14.4.14 for "
-                 "every body and every inner iterator (outside two recorded re-entrancy windows, refuted by witnesses); "
+                 "every body and every inner iterator; asyncRunner is proved to be that machine driven by the promise settlements; "
                  "completed is absorbing, executing rejects re-entry; vm.suspend/resume copy the generator's stack segment and "
                  "try/iter/ref slices so that after resuming at ANY later VM state every saved offset is shifted by exactly the "
-                 "base difference and nothing below the base changes. The model is tied to /repo on every run by 2000 (quick) / "
+                 "base difference and nothing below the base changes; for the core of the body language an explicit-stack machine "
+                 "(suspended body = locals + frames) is proved to resume, for every history, exactly as the direct evaluation with "
+                 "each yield answered by the history's values. The model is tied to /repo on every run by 2000 (quick) / "
                  "150000 (thorough) generated (body, history) pairs compared with the Gallina semantics evaluated by vm_compute."),
         "note": ("trusted: Coq kernel + vm_compute; the hand transcription of func.go/vm.go; the direct semantics of the body "
                  "language (validated against node 20 during development); the Go harness. The compiled generator body is "
